@@ -173,3 +173,94 @@ class BuildFailed(Exception):
     def __init__(self, msg, output=''):
         super().__init__(msg)
         self.output = output
+
+
+# ------------------------------------------------------------------------------------------------
+# generated-code facts (E2)
+# ------------------------------------------------------------------------------------------------
+
+CORPUS_DIR = os.path.join(VERIF, 'corpus')
+QUICK_TESTS = ['advanced', 'simple', 'edgecase', 'callbacks', 'old_logos_bugs', 'ignore_case', 'partial', 'lexer_modes']
+
+# name -> (cargo feature list, which targets)
+GEN_CONFIGS = {
+    'tail-quick': ([], 'quick'),
+    'sm-quick': (['state_machine_codegen'], 'quick'),
+    'tail-full': ([], 'full'),
+    'sm-full': (['state_machine_codegen'], 'full'),
+    'tail-forbid-full': (['forbid_unsafe'], 'full'),
+    'sm-forbid-full': (['state_machine_codegen', 'forbid_unsafe'], 'full'),
+}
+
+
+def repo_test_targets():
+    d = os.path.join(REPO, 'tests', 'tests')
+    return sorted(f[:-3] for f in os.listdir(d) if f.endswith('.rs'))
+
+
+def repo_examples():
+    d = os.path.join(REPO, 'examples')
+    return sorted(f[:-3] for f in os.listdir(d) if f.endswith('.rs')) if os.path.isdir(d) else []
+
+
+def gen_facts(treehash, config):
+    """Directory with <label>.jsonl (genscan output) for every captured target of the configuration."""
+    out = os.path.join(CACHE, treehash, 'gen-' + config)
+    done = os.path.join(out, '.done')
+    if os.path.exists(done):
+        return out
+    with Lock(os.path.join(CACHE, treehash, 'gen-%s.lock' % config)):
+        if os.path.exists(done):
+            return out
+        ensure_engine(GENSCAN_DIR, GENSCAN_BIN, release=True)
+        feats, which = GEN_CONFIGS[config]
+        tmp = tempfile.mkdtemp(prefix='logosverif-gen-')
+        try:
+            env = dict(BASE_ENV)
+            env['CARGO_TARGET_DIR'] = os.path.join(tmp, 'target')
+            env['RUSTFLAGS'] = '-Awarnings'
+            if os.path.isdir(out):
+                shutil.rmtree(out)
+            os.makedirs(out)
+            jobs = []
+            # corpus (its own lock file is a copy of the repository's, so that only cached crates are needed)
+            corpus = os.path.join(tmp, 'corpus')
+            shutil.copytree(CORPUS_DIR, corpus, ignore=shutil.ignore_patterns('target', 'Cargo.lock'))
+            with open(os.path.join(corpus, 'Cargo.toml')) as f:
+                toml = f.read()
+            with open(os.path.join(corpus, 'Cargo.toml'), 'w') as f:
+                f.write(toml.replace('path = "/repo"', 'path = "%s"' % REPO))
+            shutil.copy(os.path.join(REPO, 'Cargo.lock'), os.path.join(corpus, 'Cargo.lock'))
+            cfeat = ['--features', ','.join(feats)] if feats else []
+            jobs.append(('corpus', corpus, ['cargo', '+nightly', 'rustc', '--lib', '--offline'] + cfeat))
+            tests = repo_test_targets()
+            if which == 'quick':
+                tests = [t for t in tests if t in QUICK_TESTS]
+            tfeat = ['--features', ','.join(feats)] if feats else []
+            for t in tests:
+                jobs.append(('test-' + t, REPO, ['cargo', '+nightly', 'rustc', '-p', 'tests', '--test', t, '--offline'] + tfeat))
+            if which == 'full':
+                for e in repo_examples():
+                    name = e.replace('_', '-') if e in ('json_borrowed', 'json_reader') else e
+                    jobs.append(('example-' + e, REPO, ['cargo', '+nightly', 'rustc', '--example', name, '--offline'] + tfeat))
+            t0 = time.time()
+            index = []
+            for label, cwd, cmd in jobs:
+                exp = os.path.join(tmp, label + '.rs')
+                with open(exp, 'w') as f:
+                    r = subprocess.run(cmd + ['--', '-Zunpretty=expanded'], cwd=cwd, env=env, stdout=f, stderr=subprocess.PIPE, text=True)
+                if r.returncode != 0:
+                    sys.stderr.write(r.stderr[-4000:])
+                    raise BuildFailed('expansion of %s failed (%s)' % (label, config), r.stderr)
+                with open(os.path.join(out, label + '.jsonl'), 'w') as f:
+                    r = subprocess.run([GENSCAN_BIN, exp, label], stdout=f, stderr=subprocess.PIPE, text=True)
+                if r.returncode != 0:
+                    sys.stderr.write(r.stderr[-2000:])
+                    raise RuntimeError('genscan failed on %s' % label)
+                index.append(label)
+            log('gen', config, '%d targets %.1fs' % (len(jobs), time.time() - t0))
+            with open(done, 'w') as f:
+                f.write('\n'.join(index) + '\n')
+        finally:
+            shutil.rmtree(tmp, ignore_errors=True)
+    return out
